@@ -472,13 +472,15 @@ func driveQueue[Q bqueue.Queueable](qc queueCase, led ledger[Q], log *addLog, mk
 			for led.Height() < N+K && time.Now().Before(deadline) {
 				time.Sleep(50 * time.Microsecond)
 			}
-			func() {
-				defer guard("Put")
-				for i := total; i > N+K; i-- {
-					_ = q.Put(mk(i, false))
-					puts.Add(1)
-				}
-			}()
+			if led.Height() >= N+K { // otherwise the first window is stuck (and a blocking Put would wait forever)
+				func() {
+					defer guard("Put")
+					for i := total; i > N+K; i-- {
+						_ = q.Put(mk(i, false))
+						puts.Add(1)
+					}
+				}()
+			}
 		}
 		deadline := time.Now().Add(stepWait)
 		for led.Height() < total && time.Now().Before(deadline) && panicked.Load() == nil {
